@@ -23,6 +23,9 @@ SeqSelList = TSeq(SelList)
 SeqSelNth = TSeq(SelNth)
 SeqStr = TSeq(STR)
 SeqSel = TSeq(Sel)
+from pyvc.types import TTup as _TTup   # noqa: E402
+FormCache = TSeq(_TTup(Node, Node))
+SeqInt = TSeq(INT)
 SeqSelAttr = TSeq(SelAttr)
 SeqSelLang = TSeq(SelLang)
 SeqSelContains = TSeq(SelContains)
@@ -211,11 +214,6 @@ def sem_lang(m: M, el: Node, langs: SeqSelLang) -> bool:
 
 
 @abstract
-def sem_default(m: M, el: Node) -> bool:
-    return _ref.sem_default(m, el)
-
-
-@abstract
 def sem_indeterminate(m: M, el: Node) -> bool:
     return _ref.sem_indeterminate(m, el)
 
@@ -225,10 +223,9 @@ def sem_dir(m: M, el: Node, d: Flags) -> bool:
     return _ref.sem_dir(m, el, d)
 
 
-@abstract
 def tag_desc(m: M, el: Node, no_iframe: bool) -> SeqNode:
     """Tag descendants of el in document order (not descending into iframes when no_iframe)."""
-    return _ref.tag_desc(m, el, no_iframe)
+    return desc_spec(m, el, True, no_iframe)
 
 
 # ---------------------------------------------------------------------------------------------- lists, compounds
@@ -838,3 +835,77 @@ def sem_defined(m: M, el: Node) -> bool:
 def sem_placeholder(m: M, el: Node) -> bool:
     """:placeholder-shown extra condition: no content (a single newline does not count)."""
     return text_of(m, el, False) == '' or text_of(m, el, False) == '\n'
+
+
+# ---------------------------------------------------------------------------------------------- :default (C17.O4) and its memo table (C04.O3)
+
+def is_form_el(m: M, n: Node) -> bool:
+    return n is not None and tag_name(m, n) == 'form' and is_html_el(m, n)
+
+
+def form_from(m: M, n: Node) -> Node:
+    """n or its nearest ancestor (same document: not crossing an iframe) that is an HTML form element."""
+    if n is None:
+        return None
+    if is_form_el(m, n):
+        return n
+    return form_from(m, parent_of(m, n, True))
+
+
+def form_of(m: M, el: Node) -> Node:
+    return form_from(m, parent_of(m, el, True))
+
+
+def is_submit(m: M, c: Node) -> bool:
+    """A button or input whose type is `submit` (ASCII case-insensitive)."""
+    return ((tag_name(m, c) == 'input' or tag_name(m, c) == 'button') and
+            is_str_val(attr_by_name(c, 'type', '')) and ascii_lower(as_str(attr_by_name(c, 'type', ''))) == 'submit')
+
+
+def first_submit(m: M, seq: SeqNode, i: int) -> Node:
+    """The first submit button among seq[i:], stopping at a nested form; None if there is none."""
+    if i < 0 or i >= len(seq):
+        return None
+    if tag_name(m, seq[i]) == 'form':
+        return None
+    if is_submit(m, seq[i]):
+        return seq[i]
+    return first_submit(m, seq, i + 1)
+
+
+def default_of(m: M, form: Node) -> Node:
+    return first_submit(m, desc_spec(m, form, True, True), 0)
+
+
+def sem_default(m: M, el: Node) -> bool:
+    """Beyond :checked: el is the first submit button among the descendants of its form (in the same document)."""
+    f = form_of(m, el)
+    return f is not None and same(default_of(m, f), el)
+
+
+def default_cache_ok(m: M, cache: FormCache, i: int) -> bool:
+    """Every memoised (form, button) pair from position i on is right: the button is that form's default button."""
+    if i < 0 or i >= len(cache):
+        return True
+    return (cache[i][0] is not None and cache[i][1] is not None and same(default_of(m, cache[i][0]), cache[i][1]) and
+            default_cache_ok(m, cache, i + 1))
+
+
+@abstract
+def lang_cache_rest(m: M, cache: SeqInt) -> bool:
+    return True
+
+
+@abstract
+def indet_cache_rest(m: M, cache: SeqInt) -> bool:
+    return True
+
+
+def lang_cache_ok(m: M, cache: SeqInt) -> bool:
+    """Representation invariant of cached_meta_lang: trivially true of the empty table; for a non-empty one it is the (not yet
+    discharged) invariant maintained by match_lang."""
+    return len(cache) == 0 or lang_cache_rest(m, cache)
+
+
+def indet_cache_ok(m: M, cache: SeqInt) -> bool:
+    return len(cache) == 0 or indet_cache_rest(m, cache)
